@@ -414,7 +414,9 @@ class Array(metaclass=MetaArray):
                         get_item(value, idx)
                     )
                     offsets[idx] = offset
-                    offset += extra[idx].size
+                    # every item starts on a slot boundary (the size of a
+                    # String made from a capacity is not a multiple of 8)
+                    offset += _to_slot_size(extra[idx].size)
                 size = _to_slot_size(offset)
                 info.offsets = offsets
                 info.extra = extra
